@@ -96,6 +96,13 @@ def snapshot(obj):
     return ('val', repr(obj))
 
 
+ALL_ESTS = ['max', 'mean', 'quartile1', 'median', 'quartile3', 'min', 'sum',
+            'std', 'var', 'maxabs', 'minabs', 'meanabs', 'quartile1abs',
+            'medianabs', 'quartile3abs', 'sumabs', 'stdabs', 'varabs',
+            'x0y0z0', 'x0y0z1', 'x0y1z0', 'x0y1z1', 'x1y0z0', 'x1y0z1',
+            'x1y1z0', 'x1y1z1']
+
+
 def over_time_case(task):
     from aurel import time as atime
     from aurel.finitedifference import FiniteDifference
@@ -226,7 +233,7 @@ def main(tier):
         for order in ('sorted', 'reversed'):
             for vars_ in (['gammadet'], ['Ktrace', 's_RicciS'],
                           ['gdown4', '<custom>'], []):
-                for ests in ([], ['max', 'mean'], ['<custom>']):
+                for ests in ([], ['max', 'mean'], ['<custom>'], ALL_ESTS):
                     if not vars_ and not ests:
                         continue
                     for kw in ({}, {'Lambda': 0.1,
